@@ -6,7 +6,10 @@ RULE_TEXT = ("C13-G: obligations over the crate graph and crate attributes of th
              "library (rustc facts): #![no_std] in force, no `extern crate alloc|std`, neither alloc nor std among "
              "the loaded crates, every MIR call and every local type names only crates of that graph, build succeeds. "
              "C13-S: with feature std, bodies shared with the no_std build call nothing in alloc/std and "
-             "hold no alloc-typed local; allocation is confined to bodies that exist only under the std feature.")
+             "hold no alloc-typed local; allocation is confined to bodies that exist only under the std feature. "
+             "C13-W: a #![no_std] crate with the witness interfaces builds and loads neither alloc nor std. "
+             "C13-Q: the identifiers the macro crate's quote! fragments emit (read from its HIR, token by token) name no "
+             "alloc/std item (Vec, String, Box, format!, .to_string() ... or a path rooted in std/alloc).")
 
 ALLOC_CRATES = {"alloc", "std"}
 
@@ -72,6 +75,13 @@ def run(ck):
         ck.judge(not nbad, "C13-W", "witness:mir-callee-crates", "generated dispatchers call nothing in alloc/std", "generated code calls %s" % nbad[:3])
     elif not failures:
         ck.bad("C13-W", "witness:build", "no facts for the no_std witness crate")
+
+    # C13-Q: the vocabulary of the code the macro emits, for every handler form it can generate code for (not only the
+    # forms the witness interfaces use): no item of alloc/std is named
+    import quoted
+    mac = ctx.macros(ck)
+    if mac is not None:
+        quoted.check(ck, mac, "C13-Q")
 
     if True:      # both tiers: the std and defmt configurations cost one extraction each
         std = ctx.lib(ck, "std")
